@@ -251,6 +251,9 @@ func RunTree(r *vh.Run, rng *vh.RNG, name string, t *chainx.Tree, sched [][]int)
 	if tainted {
 		c.Tags = append(c.Tags, "history-class:exp-unstable-revert")
 	}
+	if t.Net.Volatile {
+		c.Tags = append(c.Tags, "volatile-difficulty")
+	}
 	c.Nontrivial = revertsSeen > 0
 	if revertsSeen > 0 {
 		c.Tags = append(c.Tags, "subscriber-reverted")
@@ -283,6 +286,13 @@ func Run(r *vh.Run) {
 		}
 		if i%3 == 1 {
 			runListeners(r, trng, fmt.Sprintf("tree%d/listeners", i), t)
+		}
+		if i%3 == 2 {
+			runListenerChurn(r, trng, fmt.Sprintf("tree%d/listener-churn", i), t)
+		}
+		// a reorg to a SHORTER, heavier chain: subscribers sitting above the new tip's height
+		if sh := t.ShorterHeavierSchedule(trng); sh != nil {
+			RunTree(r, trng, fmt.Sprintf("tree%d/shorter-heavier", i), t, sh)
 		}
 	}
 	r.Assume("Merkle proof values are checked by the oracle (core's accumulator) only; the model carries ids")
